@@ -5,6 +5,7 @@ import (
 	"os"
 	"sort"
 	"strings"
+	"unicode/utf8"
 
 	"github.com/coreruleset/crs-toolchain/v2/zz_verif/core"
 	"github.com/coreruleset/crs-toolchain/v2/zz_verif/inproc"
@@ -237,7 +238,7 @@ func (pc progCheck) run(r *core.Run) (res pcResult, cleanup func()) {
 	for _, m := range merged {
 		// the minimal case must behave identically through the real CLI
 		cli := core.RunCLI(r.Crs, dir, m.Key, nil, "-d", dir, "regex", "generate", "-")
-		if m.Min.Kind == "" && (cli.Exit != 0 || cli.Stdout != m.Min.Out) {
+		if m.Min.Kind == "" && (cli.Exit != 0 || cli.Stdout != m.Min.Out && jsonSafe(cli.Stdout) != m.Min.Out) {
 			r.HarnessError("minimal case %q: CLI gives %q exit %d, in-process %q", m.Key, cli.Stdout, cli.Exit, m.Min.Out)
 			continue
 		}
@@ -259,4 +260,20 @@ func (pc progCheck) run(r *core.Run) (res pcResult, cleanup func()) {
 
 func reproGenerate(text string) []string {
 	return []string{fmt.Sprintf("printf %%s %s | crs-toolchain -d <root> regex generate -", core.ShellQuote(text))}
+}
+
+// jsonSafe is what a string looks like after a round trip through encoding/json (workers report
+// their results as JSON): every byte that is not part of valid UTF-8 becomes U+FFFD.
+func jsonSafe(s string) string {
+	var sb strings.Builder
+	for i := 0; i < len(s); {
+		r, w := utf8.DecodeRuneInString(s[i:])
+		if r == utf8.RuneError && w == 1 {
+			sb.WriteString("\uFFFD")
+		} else {
+			sb.WriteString(s[i : i+w])
+		}
+		i += w
+	}
+	return sb.String()
 }
